@@ -316,7 +316,7 @@ func checkC13(c *Ctx, r *Report) {
 	}
 
 	// (b) Send call sites
-	r.Rule("per-attempt-timeout", "every Transport.Send call passes context.WithTimeout/WithDeadline(ctx parameter, …)", 3)
+	r.Rule("per-attempt-timeout", "every Transport.Send call passes context.WithTimeout/WithDeadline(ctx parameter, …)", 1)
 	for _, fn := range c.LibFuncs() {
 		rawInstrs(fn, false, func(in ssa.Instruction) {
 			if !isCallTo(in, fnTransportSend) {
